@@ -198,3 +198,43 @@ V('ja-unary-adv-swapped', JA, "        if x.nargs == 1:\n            return 'ADV
 V('ja-unary-items-unguarded', JA, "set(feature.items()) if isinstance(feature, TernaryFeature) else set()", "set(feature.items())", ['C04', 'C14'])
 V('ja-bx3-symbol', JA, 'op_symbol=">Bx3"', 'op_symbol=">Bx2"', ['C04'])
 V('ja-silent-xor-form', JA, "        if x.nargs == 1:\n            return 'ADV1'", "        if x ^ Category.parse('S\\\\NP'):\n            return 'ADV1'", ['C04'], expect='silent')
+
+# ---------------------------------------------------------------- unification (C06, C14)
+U = 'depccg/unification.py'
+V('u-no-done-check', U, "        if self.done:\n            raise RuntimeError(\n                \"cannot use the same Unification object more than once.\"\n            )\n        self.done = True", "        self.done = True", ['C06'])
+V('u-done-not-set', U, "            )\n        self.done = True\n", "            )\n", ['C06'])
+V('u-fail-leaves-success', U, "            else:\n                self.success = False\n                return False", "            else:\n                return False", ['C06'])
+V('u-getitem-no-guard', U, "        assert self.success, \\\n            (\"the unification has not been successful. \"\n             \"Unification.__getitem__ is not callable in that case.\")\n\n", "", ['C06'])
+V('u-no-wildcard', U, "s.slash == t.slash or '|' in (s.slash, t.slash))", "s.slash == t.slash)", ['C06'])
+V('u-left-only', U, "                    scan(s.left, t.left, results) and scan(\n                        s.right, t.right, results)", "                    scan(s.left, t.left, results)", ['C06'])
+V('u-shared-var-unchecked', U, "                if s.base in self.cats and not (t ^ self.cats[s.base]):\n                    return False\n", "", ['C06'])
+V('u-one-sided-unify', U, "            elif y_feature.unifies(x_feature):\n                if y_feature.is_variable:\n                    self.mapping[y_feature] = x_feature\n", "", ['C06'])
+V('u-map-always', U, "                if x_feature.is_variable:\n                    self.mapping[x_feature] = y_feature", "                self.mapping[x_feature] = y_feature", ['C06'])
+V('u-set-iteration', U, "for var in sorted(meta_vars):", "for var in meta_vars:", ['C14'])
+V('u-class-level-cache', U, "        self.cats: Dict[str, Category] = {}\n", "        self.cats: Dict[str, Category] = _SHARED\n", ['C14'], count=1)
+V('c-ignorable-drops-nb', CAT, 'return self.value is None or self.value == "nb"', 'return self.value is None', ['C06'])
+V('c-variable-is-Y', CAT, 'return self.value == "X"', 'return self.value == "Y"', ['C06'])
+V('c-unary-unifies-strict', CAT, "            self.is_variable\n            or self.is_ignorable\n            or self == other", "            self.is_variable\n            or self == other", ['C06'])
+V('en-uni-module-level', EN, 'def forward_application(x: Category, y: Category) -> Optional[CombinatorResult]:\n    uni = Unification("a/b", "b")\n', '_FA = Unification("a/b", "b")\n\n\ndef forward_application(x: Category, y: Category) -> Optional[CombinatorResult]:\n    uni = _FA\n', ['C06', 'C14'])
+V('en-read-before-call', EN, '    uni = Unification("a/b", "b/c")\n    if uni(x, y):', '    uni = Unification("a/b", "b/c")\n    if uni[\'a\'] is not None and uni(x, y):', ['C06', 'C14'])
+V('en-bad-key', EN, "result = y if _is_modifier(x) else y.functor(\n            (uni['a'] / uni['c']), uni['d'])", "result = y if _is_modifier(x) else y.functor(\n            (uni['a'] / uni['c']), uni['e'])", ['C06', 'C14'])
+V('en-double-call', EN, '    uni = Unification("b", "a\\\\b")\n        if uni(x, y):', '    uni = Unification("b", "a\\\\b")\n        if uni(x, y) or uni(y, x):', ['C06'])
+V('u-silent-raise-form', U, "        assert self.success, \\\n            (\"the unification has not been successful. \"\n             \"Unification.__getitem__ is not callable in that case.\")\n", "        if not self.success:\n            raise RuntimeError('the unification has not been successful')\n", ['C06'], expect='silent')
+
+# ---------------------------------------------------------------- C14
+V('en-gate-ignores-set', EN, "if seen_rules is None or seen_key in seen_rules:", "if seen_rules is None or seen_key:", ['C14'])
+V('en-gate-key-raw', EN, "    seen_key = (\n        x.clear_features('X', 'nb'), y.clear_features('X', 'nb')\n    )", "    seen_key = (x, y)", ['C14'])
+V('en-gate-per-result', EN, "            if result is not None:\n                results.append(result)", "            if result is not None and (seen_rules is None or (result.cat, y) in seen_rules):\n                results.append(result)", ['C14'])
+V('en-nb-not-erased', EN, "key = (x.clear_features('nb'), y.clear_features('nb'))", "key = (x, y.clear_features('nb'))", ['C14'])
+V('en-results-module-level', EN, "    results = []\n    if seen_rules is None or seen_key in seen_rules:", "    results = _RESULTS\n    if seen_rules is None or seen_key in seen_rules:", ['C14'])
+V('en-memo-table', EN, "def apply_binary_rules(\n    x: Category,\n    y: Category,\n    seen_rules: Optional[Set[Pair[Category]]] = None,\n) -> List[CombinatorResult]:\n    key", "_MEMO = {}\n\n\ndef apply_binary_rules(\n    x: Category,\n    y: Category,\n    seen_rules: Optional[Set[Pair[Category]]] = None,\n) -> List[CombinatorResult]:\n    _MEMO[(x, y)] = seen_rules\n    key", ['C14'])
+V('en-unary-mutates-table', EN, "    if x not in unary_rules:\n        return []\n    results = []\n    for result in unary_rules[x]:\n        type_raised", "    if x not in unary_rules:\n        unary_rules[x] = []\n        return []\n    results = []\n    for result in unary_rules[x]:\n        type_raised", ['C14'])
+V('en-unary-skips-self', EN, "    for result in unary_rules[x]:\n        type_raised = (", "    for result in unary_rules[x]:\n        if result == x:\n            continue\n        type_raised = (", ['C14'])
+V('en-unary-dedup', EN, "    for result in unary_rules[x]:\n        type_raised = (", "    for result in set(unary_rules[x]):\n        type_raised = (", ['C14'])
+V('ja-unary-keyerror', JA, "    if x not in unary_rules:\n        return []\n    results = []\n    for result in unary_rules[x]:\n        op_string", "    results = []\n    for result in unary_rules[x]:\n        op_string", ['C14'])
+V('en-unguarded-left', EN, "    return x.is_functor and x.left == x.right", "    return x.left == x.right", ['C14', 'C03'])
+V('en-type-raised-unguarded', EN, "    if x.is_atomic:\n        return False\n    return (\n        x.right.is_functor and x.right.left == x.left", "    return (\n        x.right.is_functor and x.right.left == x.left", ['C14'])
+V('ja-deep-functor-access', JA, "x.left.functor(uni['a'] | uni['c'], uni['d']), uni['e']\n        )", "x.left.left.left.functor(uni['a'] | uni['c'], uni['d']), uni['e']\n        )", ['C14', 'C04'])
+V('en-sort-results-by-hash', EN, "    return results\n\n\ndef apply_unary_rules", "    return [r for r in {id(r): r for r in results}.values()] if False else list(set(results))\n\n\ndef apply_unary_rules", ['C14'])
+V('cat-clear-mutates', CAT, "    def clear_features(self, *args) -> 'Atom':\n        if self.feature in args:\n            return Atom(self.base)", "    def clear_features(self, *args) -> 'Atom':\n        if self.feature in args:\n            object.__setattr__(self, 'feature', UnaryFeature())\n            return self", ['C14', 'C13'])
+V('en-silent-gate-reordered', EN, "if seen_rules is None or seen_key in seen_rules:", "if (seen_rules is None) or (seen_key in seen_rules):", ['C14'], expect='silent')
